@@ -687,7 +687,9 @@ class Node:
                         if conn.state == PEER_CLOSED:
                             self.close_connection_socket(
                                 conn, DISCONNECT_REASON_CLEAN_DISCONNECT)
-                        elif len(conn.write_buffer) == 0 and conn.state == PEER_CLOSING:
+                        elif (len(conn.write_buffer) == 0 and
+                                not conn.has_queued_messages and
+                                conn.state == PEER_CLOSING):
                             self.connection_logger.debug(
                                 f"{conn} in CLOSING state and no more bytes to "
                                 f"send, closing socket")
@@ -821,7 +823,8 @@ class Node:
                         continue
 
                 if len(conn.write_buffer) == 0:
-                    if conn.state == PEER_CLOSING:
+                    if (conn.state == PEER_CLOSING and
+                            not conn.has_queued_messages):
                         self.connection_logger.debug(
                             f"{conn} in CLOSING state nothing to write, "
                             f"closing socket")
@@ -855,7 +858,9 @@ class Node:
                         f"{conn} sent {sent_bytes} bytes, "
                         f"{len(conn.write_buffer)} bytes remain")
 
-                    if len(conn.write_buffer) == 0 and conn.state == PEER_CLOSING:
+                    if (len(conn.write_buffer) == 0 and
+                            not conn.has_queued_messages and
+                            conn.state == PEER_CLOSING):
                         self.connection_logger.debug(
                             f"{conn} in CLOSING state and no more bytes to "
                             f"send, closing socket")
